@@ -44,8 +44,9 @@ PROPS['C08'] = dict(level='proof', explanation='substr/left/right proved against
 # ---- C09: split / tokenize / replace
 SPLIT = ['ST::string::split|(const ST::string &, size_t', 'ST::string::split|(const char *, size_t', 'ST::string::split|(char, size_t', 'ST::string::tokenize',
          'ST::string::replace|(const ST::string &, const ST::string &, ST::case_sensitivity_t) const']
-unit('string_split', functions=SPLIT, stubs=LEAF_STUBS + ['ST_string_ctor__pc_sz_utf_validation_t'], spec='contracts/string_split.spec', harness='harness/string_split.c', include=INC + ['spec/split_ghost.h'])
-job('string_split', 'str.split_string', 'h_str_split_string', ['C09', 'C04'], timeout=900, expect=[r'ST_string_split\.postcondition\.[1-7]', r'ST_string_split\.step\.[123]', r'loop0\.decreases'])
-job('string_split', 'str.split_cstr', 'h_str_split_cstr', ['C09'], timeout=900, expect=[r'ST_string_split\.postcondition\.[1-7]', r'ST_string_split\.step\.[123]', r'loop1\.decreases'])
-job('string_split', 'str.split_char', 'h_str_split_char', ['C09'], timeout=900, expect=[r'ST_string_split\.postcondition\.[1-7]', r'ST_string_split\.step\.[123]', r'loop0\.decreases'])
-job('string_split', 'str.tokenize', 'h_str_tokenize', ['C09', 'C04'], timeout=900, expect=[r'ST_string_tokenize\.postcondition\.[1267]', r'ST_string_tokenize\.step\.[1-6]', r'loop[012]\.decreases'])
+unit('string_split', functions=SPLIT, stubs=LEAF_STUBS + ['ST_string_ctor__pc_sz_utf_validation_t', 'stp_validate_utf8'], spec='contracts/string_split.spec', harness='harness/string_split.c', include=INC + ['spec/split_ghost.h'])
+job('string_split', 'str.split_string', 'h_str_split_string', ['C09', 'C04'], timeout=900, solver='cadical', expect=[r'ST_string_split\.postcondition\.[1-7]', r'ST_string_split\.step\.[123]', r'loop0\.decreases'])
+job('string_split', 'str.split_cstr', 'h_str_split_cstr', ['C09'], timeout=900, solver='cadical', expect=[r'ST_string_split\.postcondition\.[1-7]', r'ST_string_split\.step\.[123]', r'loop1\.decreases'])
+job('string_split', 'str.split_char', 'h_str_split_char', ['C09'], timeout=900, solver='cadical', expect=[r'ST_string_split\.postcondition\.[1-7]', r'ST_string_split\.step\.[123]', r'loop0\.decreases'])
+job('string_split', 'str.tokenize', 'h_str_tokenize', ['C09', 'C04'], timeout=900, solver='cadical', expect=[r'ST_string_tokenize\.postcondition\.[1267]', r'ST_string_tokenize\.step\.[1-6]', r'loop[012]\.decreases'])
+job('string_split', 'str.replace', 'h_str_replace', ['C09', 'C04'], timeout=1500, solver='cadical', expect=[r'ST_string_replace\.postcondition\.([1-9]|10)', r'ST_string_replace\.count\.[123]', r'ST_string_replace\.copy\.[12]', r'loop[01]\.decreases'])
